@@ -33,3 +33,8 @@ import pygal_on_ready  # noqa: E402
 
 # taskiq/scheduler/scheduler.py: TaskiqScheduler.on_ready (C16), monadic backend over PyStm.v / PyPreludeSched.v
 SPECS["on_ready"] = pygal_on_ready.SPEC
+
+import pygal_labels  # noqa: E402
+
+# taskiq/labels.py (LabelType, _LABEL_PARSERS, prepare_label, parse_label) + taskiq/message.py TaskiqMessage.parse_labels (C09)
+SPECS["labels"] = pygal_labels.SPEC
